@@ -94,6 +94,28 @@ pub fn check(c: &Case, cs: &mut CaseStats) -> Result<(), String> {
             }
         }
     }
+    // the same for the faces reported by the face integrals of the integrator (non-symmetric and
+    // symmetric entry points): only planes inside the active subspace, in 1D exactly two per cell
+    {
+        use crate::obs::PlaneFace;
+        let vi = obs::integrator(c, c.mask.as_deref());
+        for cell in vi.cells_iter() {
+            for (what, list) in [("compute_face_integrals", cell.compute_face_integrals::<(), PlaneFace>(())), ("compute_face_integrals_sym", cell.compute_face_integrals_sym::<(), PlaneFace>((), &c.mask.clone().unwrap_or(vec![true; n])))] {
+                for f in &list {
+                    let nrm = cell.clipping_planes[f.integral().plane_idx].normal();
+                    for a in d..3 {
+                        if nrm[a] != 0. {
+                            return Err(format!("cell {}: {what} reports a face with normal {:?} (component along the unused axis {a})", cell.idx, nrm));
+                        }
+                    }
+                }
+                if d == 1 && what == "compute_face_integrals" && list.len() != 2 {
+                    return Err(format!("1D cell {}: {what} reports {} faces, a 1D cell has exactly two", cell.idx, list.len()));
+                }
+            }
+            cs.count("integrator_cells_face_normals_checked", 1);
+        }
+    }
     let active: Vec<bool> = c.mask.clone().unwrap_or(vec![true; n]);
     let unresolvable = crate::refcmp::unresolvable(c);
     // --- (b) 1D closed form
@@ -240,7 +262,7 @@ pub fn check(c: &Case, cs: &mut CaseStats) -> Result<(), String> {
 pub fn def() -> PropDef {
     PropDef {
         id: "C08",
-        rule: "cases: 1D and 2D inputs from all families x masks, periodic or not, n to 200 (quick) / 600 (thorough), the unused components of generators, anchor and width filled with garbage (0, -0.0, +-1e300, subnormals, f64::MAX, random; in a quarter of the cases also NaN and +-inf); oracles: (a) metamorphic, bitwise: replacing the garbage by 0/0/1 leaves the canonical dump unchanged; (b) 1D closed form: cell = [midpoint to the left neighbour, midpoint to the right neighbour] (seam wrapped if periodic), two faces of area 1 with normals +-e_x at those positions; (c) 2D vs the 3D tessellation of the same generators at z = 0 in a slab of unit thickness: equal measures, centroids and in-plane faces; (d) unit normals with exactly zero unused components, dimensionality() echoes the input. non-trivial: garbage differs from the canonical values on a generator and on the box, n >= 2; distinct by case hash.",
+        rule: "cases: 1D and 2D inputs from all families x masks, periodic or not, n to 200 (quick) / 600 (thorough), the unused components of generators, anchor and width filled with garbage (0, -0.0, +-1e300, subnormals, f64::MAX, random; in a quarter of the cases also NaN and +-inf); oracles: (a) metamorphic, bitwise: replacing the garbage by 0/0/1 leaves the canonical dump unchanged; (b) 1D closed form: cell = [midpoint to the left neighbour, midpoint to the right neighbour] (seam wrapped if periodic), two faces of area 1 with normals +-e_x at those positions; (c) 2D vs the 3D tessellation of the same generators at z = 0 in a slab of unit thickness: equal measures, centroids and in-plane faces; (d) unit normals with exactly zero unused components, also for every face reported by the (symmetric and non-symmetric) face integrals of the integrator, 1D cells report exactly two faces, dimensionality() echoes the input. non-trivial: garbage differs from the canonical values on a generator and on the box, n >= 2; distinct by case hash.",
         strategy,
         check,
         cases: |t| t.pick(6000, 300_000),
